@@ -171,6 +171,33 @@ fn check_comment_text(text: &str) -> Result<()> {
     Ok(())
 }
 
+/// The classes of a class attribute: separated by spaces, except that a space
+/// inside `{{...}}` is part of the expression (and so of the class) it stands in.
+fn split_classes(value: &str) -> Vec<String> {
+    let mut classes = Vec::new();
+    let mut current = String::new();
+    let mut rest = value;
+    let mut in_expr = false;
+    while let Some(c) = rest.chars().next() {
+        if !in_expr && rest.starts_with("{{") && rest.contains("}}") {
+            in_expr = true;
+        } else if in_expr && rest.starts_with("}}") {
+            in_expr = false;
+            current.push_str("}}");
+            rest = &rest[2..];
+            continue;
+        }
+        if c == ' ' && !in_expr {
+            classes.push(std::mem::take(&mut current));
+        } else {
+            current.push(c);
+        }
+        rest = &rest[c.len_utf8()..];
+    }
+    classes.push(current);
+    classes
+}
+
 impl SvgElement {
     pub fn new(name: &str, attrs: &[(String, String)]) -> Self {
         let mut attr_map = AttrMap::new();
@@ -178,8 +205,8 @@ impl SvgElement {
 
         for (key, value) in attrs {
             if key == "class" {
-                for c in value.split(' ') {
-                    classes.insert(c.to_string());
+                for c in split_classes(value) {
+                    classes.insert(c);
                 }
             } else {
                 attr_map.insert(key.to_string(), value.to_string());
